@@ -3,12 +3,17 @@ package main
 
 import (
 	"bytes"
+	"context"
 	"encoding/binary"
+	"encoding/json"
 	"fmt"
 	"os"
+	"os/exec"
 	"path/filepath"
+	"strconv"
 	"strings"
 	"time"
+	"unicode/utf8"
 
 	"github.com/linuxboot/fiano/pkg/cbfs"
 	"github.com/linuxboot/fiano/pkg/compression"
@@ -422,6 +427,430 @@ func pDecompress(args []string) string {
 	return "ok"
 }
 
+// ---------- the listing as text and as JSON, cbfs.Open, the cbfs command ----------
+//
+// Image.String, Image.MarshalJSON, cbfs.Open and cmds/cbfs run(list|json|extract) are
+// the entry points the property names besides Segs.  They are not modelled; the
+// oracles below compare what they print / write with the archive the image was
+// serialised from.
+
+// independent table of the names the listing prints for the types (the reference for
+// "type as stored" in the text and JSON forms); other values print as %#x
+var typeNames = map[uint32]string{
+	0x1: "BootBlock", 0x2: "cbfs header", 0x10: "LegacyStage", 0x11: "Stage", 0x20: "SELF",
+	0x21: "FIT", 0x30: "OptionRom", 0x40: "BootSplash", 0x50: "Raw", 0x51: "VSA", 0x52: "MBI",
+	0x53: "MicroCode", 0x60: "FSP", 0x61: "MRC", 0x62: "MMA", 0x63: "EFI", 0x70: "Struct",
+	0xaa: "CMOS", 0xab: "SPD", 0xac: "MRCCache", 0x1aa: "CMOSLayout",
+}
+
+func typeName(t uint32) string {
+	if isEmptyType(t) {
+		return "Deleted2"
+	}
+	if n, ok := typeNames[t]; ok {
+		return n
+	}
+	return fmt.Sprintf("%#x", t)
+}
+
+func compName(c uint32) string {
+	switch c {
+	case 0:
+		return "none"
+	case 1:
+		return "lzma"
+	case 2:
+		return "lz4"
+	}
+	return "unknown"
+}
+
+// findings of /repo HEAD that have their own tag (known_findings.txt); every other
+// failure of the same case is reported in preference to them
+func knownTag(f string) bool {
+	return strings.HasPrefix(f, "FAIL legacy-stage-listing-size") || strings.HasPrefix(f, "FAIL listing-text-compression-fixed-none")
+}
+
+func firstFail(fails []string) string {
+	for _, f := range fails {
+		if !knownTag(f) {
+			return f
+		}
+	}
+	if len(fails) > 0 {
+		return fails[0]
+	}
+	return "ok"
+}
+
+func num(tok string) (uint64, bool) {
+	v, err := strconv.ParseUint(tok, 0, 64)
+	return v, err == nil
+}
+
+// checkText: after the two heading lines the text has one line per record, in archive
+// order, each once: name, record offset, type, size, compression (numbers in any base
+// strconv understands, columns separated by white space); a SELF record may be
+// followed by its " Seg #n" lines.  Empty-space records may print "(empty)" for the name.
+func checkText(text string, a []arec, want []entry) []string {
+	lines := strings.Split(text, "\n")
+	if len(lines) >= 2 && strings.HasPrefix(lines[0], "FMAP REGIO") {
+		lines = lines[1:]
+	}
+	if len(lines) >= 1 {
+		if f := strings.Fields(lines[0]); len(f) > 0 && f[0] == "Name" {
+			lines = lines[1:]
+		}
+	}
+	var fails []string
+	pos := 0
+	next := func(afterSELF bool) (string, bool) {
+		for pos < len(lines) {
+			l := lines[pos]
+			if strings.TrimSpace(l) == "" || (afterSELF && strings.HasPrefix(l, " Seg #")) {
+				pos++
+				continue
+			}
+			pos++
+			return l, true
+		}
+		return "", false
+	}
+	for k := range want {
+		w := want[k]
+		tag := fmt.Sprintf("rec %d type %#x", k, a[k].typ)
+		line, ok := next(k > 0 && a[k-1].typ == uint32(cbfs.TypeSELF))
+		if !ok {
+			fails = append(fails, fmt.Sprintf("FAIL listing-text-count lines for %d records, want %d", k, len(want)))
+			return fails
+		}
+		names := []string{string(w.name)}
+		if isEmptyType(a[k].typ) {
+			names = append(names, "(empty)")
+		}
+		tt := strings.Fields(typeName(a[k].typ))
+		why := "name"
+		for _, nm := range names {
+			if !strings.HasPrefix(line, nm) {
+				continue
+			}
+			rest := strings.Fields(line[len(nm):])
+			if len(rest) != 3+len(tt) {
+				continue
+			}
+			why = ""
+			if v, ok := num(rest[0]); !ok || v != uint64(w.off) {
+				why = "offset"
+			} else if strings.Join(rest[1:1+len(tt)], " ") != strings.Join(tt, " ") {
+				why = "type"
+			} else if v, ok := num(rest[1+len(tt)]); !ok || v != uint64(w.sz) {
+				why = "size"
+				d := a[k].data
+				if a[k].typ == uint32(cbfs.TypeLegacyStage) && len(d) >= 28 && ok && v == uint64(binary.LittleEndian.Uint32(d[20:])) {
+					why = "legacy-size"
+				}
+			} else if rest[2+len(tt)] != compName(w.cp) {
+				why = "compression"
+				if (a[k].typ == uint32(cbfs.TypeMaster) || a[k].typ == uint32(cbfs.TypeSELF)) && rest[2+len(tt)] == "none" {
+					why = "fixed-none"
+				}
+			}
+			break
+		}
+		switch why {
+		case "":
+		case "legacy-size":
+			// the line of a legacy stage shows the Size field of the stage header inside the data
+			fails = append(fails, "FAIL legacy-stage-listing-size "+tag+" line "+strconv.Quote(line))
+		case "fixed-none":
+			fails = append(fails, "FAIL listing-text-compression-fixed-none "+tag+" stored "+compName(w.cp))
+		default:
+			fails = append(fails, "FAIL listing-text-"+why+" "+tag+" line "+strconv.Quote(line))
+		}
+	}
+	if l, ok := next(len(want) > 0 && a[len(want)-1].typ == uint32(cbfs.TypeSELF)); ok {
+		fails = append(fails, "FAIL listing-text-count extra line "+strconv.Quote(l))
+	}
+	return fails
+}
+
+// what a JSON string can carry of a name: bytes that are not UTF-8 become U+FFFD
+func jsonName(b []byte) string {
+	var sb strings.Builder
+	for len(b) > 0 {
+		r, n := utf8.DecodeRune(b)
+		if r == utf8.RuneError && n == 1 {
+			sb.WriteRune(utf8.RuneError)
+		} else {
+			sb.Write(b[:n])
+		}
+		b = b[n:]
+	}
+	return sb.String()
+}
+
+type jSeg struct {
+	Name        string
+	Start, Size uint32
+	Type        string
+	Compression string
+}
+
+func checkJSON(doc []byte, aoff int, a []arec, want []entry) []string {
+	var j struct {
+		Offset   uint32
+		Segments []jSeg
+	}
+	if err := json.Unmarshal(doc, &j); err != nil {
+		return []string{"FAIL listing-json-unreadable " + err.Error()}
+	}
+	var fails []string
+	if int(j.Offset) != aoff {
+		fails = append(fails, fmt.Sprintf("FAIL listing-json-area-offset got %#x want %#x", j.Offset, aoff))
+	}
+	if len(j.Segments) != len(want) {
+		return append(fails, fmt.Sprintf("FAIL listing-json-count got %d want %d", len(j.Segments), len(want)))
+	}
+	for k := range want {
+		g, w := j.Segments[k], want[k]
+		tag := fmt.Sprintf("rec %d type %#x", k, a[k].typ)
+		nameOK := g.Name == jsonName(w.name)
+		if isEmptyType(a[k].typ) && (g.Name == "" || g.Name == "(empty)") {
+			nameOK = true
+		}
+		switch {
+		case !nameOK:
+			fails = append(fails, "FAIL listing-json-name "+tag)
+		case g.Start != w.off:
+			fails = append(fails, "FAIL listing-json-offset "+tag)
+		case g.Type != typeName(a[k].typ):
+			fails = append(fails, "FAIL listing-json-type "+tag)
+		case g.Size != w.sz:
+			fails = append(fails, fmt.Sprintf("FAIL listing-json-size %s got %#x want %#x", tag, g.Size, w.sz))
+		case g.Compression != compName(w.cp):
+			fails = append(fails, "FAIL listing-json-compression "+tag)
+		}
+	}
+	return fails
+}
+
+// img, area offset, archive: Image.String
+func pListingText(args []string) string {
+	a, _ := argsArch(args[2:])
+	i, err := cbfs.NewImage(bytes.NewReader(UnH(args[0])))
+	if err != nil {
+		return "FAIL newimage-error " + err.Error()
+	}
+	return firstFail(checkText(i.String(), a, records(a)))
+}
+
+// img, area offset, archive: Image.MarshalJSON
+func pListingJSON(args []string) string {
+	a, _ := argsArch(args[2:])
+	i, err := cbfs.NewImage(bytes.NewReader(UnH(args[0])))
+	if err != nil {
+		return "FAIL newimage-error " + err.Error()
+	}
+	doc, err := json.Marshal(i)
+	if err != nil {
+		return "FAIL listing-json-error " + err.Error()
+	}
+	return firstFail(checkJSON(doc, int(UnN(args[1])), a, records(a)))
+}
+
+// img: cbfs.Open on a file holding the image gives what NewImage gives on the bytes
+// (listing, attributes and data of every record)
+func pOpen(args []string) string {
+	img := UnH(args[0])
+	ref, err := cbfs.NewImage(bytes.NewReader(img))
+	if err != nil {
+		return "FAIL newimage-error " + err.Error()
+	}
+	dir, err := os.MkdirTemp("", "verif-c19-")
+	if err != nil {
+		return "skip"
+	}
+	defer os.RemoveAll(dir)
+	p := filepath.Join(dir, "in.rom")
+	if err := os.WriteFile(p, img, 0o644); err != nil {
+		return "skip"
+	}
+	i, err := cbfs.Open(p)
+	if err != nil {
+		return "FAIL open-error " + err.Error()
+	}
+	if showEntries(segEntries(i)) != showEntries(segEntries(ref)) {
+		return "FAIL open-listing-differs"
+	}
+	for k := range ref.Segs {
+		f, g := ref.Segs[k].GetFile(), i.Segs[k].GetFile()
+		if !bytes.Equal(f.FData, g.FData) || !bytes.Equal(f.Attr, g.Attr) {
+			return fmt.Sprintf("FAIL open-data-differs rec %d", k)
+		}
+	}
+	if !bytes.Equal(i.Data, img) {
+		return "FAIL open-image-bytes-differ"
+	}
+	return "ok"
+}
+
+// ---- the cbfs command (package main of cmds/cbfs: built once per executor run) ----
+
+const cmdEnv = "VERIF_C19_CBFS_CMD"
+
+// buildCmd compiles cmds/cbfs of the checkout under test into a temporary directory
+// (parent process only; the workers find the path in the environment).
+func buildCmd() (cleanup func()) {
+	cleanup = func() {}
+	repo := os.Getenv("VERIF_REPO_PATH")
+	if repo == "" {
+		repo = "/repo"
+	}
+	dir, err := os.MkdirTemp("", "verif-c19-cmd-")
+	if err != nil {
+		return
+	}
+	cleanup = func() { os.RemoveAll(dir) }
+	bin := filepath.Join(dir, "cbfs")
+	ctx, cancel := context.WithTimeout(context.Background(), 5*time.Minute)
+	defer cancel()
+	c := exec.CommandContext(ctx, "go", "build", "-o", bin, "./cmds/cbfs")
+	c.Dir = repo
+	c.Env = append(os.Environ(), "GOFLAGS=-mod=mod", "GOPROXY=off", "GOSUMDB=off", "GOTOOLCHAIN=local", "CGO_ENABLED=0")
+	if out, err := c.CombinedOutput(); err != nil {
+		fmt.Fprintf(os.Stderr, "note: cmds/cbfs does not build, p_cmd cases are skipped: %v %s\n", err, out)
+		return
+	}
+	os.Setenv(cmdEnv, bin)
+	return
+}
+
+func runCmd(dir string, args ...string) ([]byte, error) {
+	ctx, cancel := context.WithTimeout(context.Background(), 15*time.Second)
+	defer cancel()
+	c := exec.CommandContext(ctx, os.Getenv(cmdEnv), args...)
+	c.Dir = dir
+	return c.Output()
+}
+
+func mangled(name []byte) string { return strings.ReplaceAll(string(name), "/", "_") }
+
+// a name the file system takes for a file in the output directory
+func usableName(m string) bool {
+	return m != "" && m != "." && m != ".." && len(m) <= 255 && !strings.ContainsRune(m, 0)
+}
+
+// SELF: the segment table up to the ENTRY segment is kept apart, the data of the file
+// is what follows (all of it when nothing follows) - the split C19_data_exact states
+func selfRemainder(stored []byte) []byte {
+	for n := 28; n <= len(stored); n += 28 {
+		if binary.BigEndian.Uint32(stored[n-28:]) == uint32(cbfs.SegEntry) {
+			if len(stored)-n > 0 {
+				return stored[n:]
+			}
+			return stored
+		}
+	}
+	return stored
+}
+
+// img, area offset, stale, archive, count {index original}: the cbfs command on a file
+// holding the image.  list and json print the listing; extract writes, for every record
+// that is not empty space, a file named after the record ('/' -> '_') holding the
+// stored bytes, resp. the original content for LZMA / LZ4.  Hypotheses (else skip):
+// the names of the records to extract are distinct usable file names, and every
+// record carrying a compression attribute other than none really holds enc(original).
+// stale = 1: the output directory already holds larger files under the same names.
+func pCmd(args []string) string {
+	if os.Getenv(cmdEnv) == "" {
+		return "skip"
+	}
+	img := UnH(args[0])
+	aoff := int(UnN(args[1]))
+	stale := UnN(args[2]) == 1
+	a, rest := argsArch(args[3:])
+	origs := map[int][]byte{}
+	for n := int(UnN(rest[0])); n > 0; n-- {
+		origs[int(UnN(rest[1]))] = UnH(rest[2])
+		rest = rest[2:]
+	}
+	want := records(a)
+	seen := map[string]bool{}
+	for k := range a {
+		if isEmptyType(a[k].typ) {
+			continue
+		}
+		m := mangled(a[k].name)
+		if !usableName(m) || seen[m] {
+			return "skip"
+		}
+		seen[m] = true
+		if cp := specComp(&a[k]); cp != 0 {
+			if _, ok := origs[k]; !ok || (cp != 1 && cp != 2) || a[k].typ == uint32(cbfs.TypeSELF) {
+				return "skip"
+			}
+		}
+	}
+	dir, err := os.MkdirTemp("", "verif-c19-")
+	if err != nil {
+		return "skip"
+	}
+	defer os.RemoveAll(dir)
+	if err := os.WriteFile(filepath.Join(dir, "img.rom"), img, 0o644); err != nil {
+		return "skip"
+	}
+	var fails []string
+	out, err := runCmd(dir, "img.rom", "list")
+	if err != nil {
+		return "FAIL cmd-list-error " + err.Error()
+	}
+	for _, f := range checkText(string(out), a, want) {
+		fails = append(fails, strings.Replace(f, "FAIL ", "FAIL cmd-", 1))
+	}
+	out, err = runCmd(dir, "img.rom", "json")
+	if err != nil {
+		return "FAIL cmd-json-error " + err.Error()
+	}
+	for _, f := range checkJSON(out, aoff, a, want) {
+		fails = append(fails, strings.Replace(f, "FAIL ", "FAIL cmd-", 1))
+	}
+	if stale {
+		_ = os.Mkdir(filepath.Join(dir, "out"), 0o755)
+		for k := range a {
+			if !isEmptyType(a[k].typ) {
+				_ = os.WriteFile(filepath.Join(dir, "out", mangled(a[k].name)), bytes.Repeat([]byte{0xA5}, 2*len(a[k].data)+300), 0o644)
+			}
+		}
+	}
+	if _, err := runCmd(dir, "img.rom", "extract", "out"); err != nil {
+		return "FAIL cmd-extract-error " + err.Error()
+	}
+	for k := range a {
+		if isEmptyType(a[k].typ) {
+			continue
+		}
+		tag := fmt.Sprintf("rec %d type %#x comp %s", k, a[k].typ, compName(want[k].cp))
+		exp := a[k].data
+		if a[k].typ == uint32(cbfs.TypeSELF) {
+			exp = selfRemainder(exp)
+		}
+		if want[k].cp != 0 {
+			exp = origs[k]
+		}
+		got, err := os.ReadFile(filepath.Join(dir, "out", mangled(a[k].name)))
+		if err != nil {
+			fails = append(fails, "FAIL cmd-extract-missing "+tag)
+		} else if !bytes.Equal(got, exp) {
+			fails = append(fails, fmt.Sprintf("FAIL cmd-extract-differs %s file %d bytes, want %d", tag, len(got), len(exp)))
+		}
+	}
+	for i, f := range fails { // the tagged findings keep their tag under the command too
+		fails[i] = strings.Replace(strings.Replace(f, "FAIL cmd-legacy-stage-listing-size", "FAIL legacy-stage-listing-size", 1),
+			"FAIL cmd-listing-text-compression-fixed-none", "FAIL listing-text-compression-fixed-none", 1)
+	}
+	return firstFail(fails)
+}
+
 // ---------- generators ----------
 
 var registered = []uint32{0, 1, 2, 0x10, 0x11, 0x20, 0x30, 0x40, 0x50, 0x53, 0x60, 0xaa, 0xab, 0x1aa, 0xffffffff}
@@ -455,6 +884,9 @@ func noSig(b []byte) []byte {
 
 func genName(r *Rng) []byte {
 	n := r.Pick(0, 1, 3, 7, 8, 14, 15, 16, 17, 23, 24, 30, 31, 32, 33, 40, 47, 48, 49)
+	if r.Chance(1, 16) { // long names: header + name beyond 64, 128, 256 bytes
+		n = r.Pick(63, 64, 65, 100, 127, 128, 200, 231, 232, 233, 255, 256, 257, 300, 600)
+	}
 	b := make([]byte, n)
 	for i := range b {
 		b[i] = byte("abcdefghijklmnopqrstuvwxyz/_.-0123456789"[r.Intn(40)])
@@ -469,13 +901,25 @@ func compAttr(alg, dsize uint32) attr {
 	return attr{uint32(cbfs.Compressed), append(be32(alg), be32(dsize)...)}
 }
 
+// the decompressed-size field of a compression attribute: the honest value, or a boundary value
+func genDsize(r *Rng, honest int) uint32 {
+	switch r.Intn(8) {
+	case 0:
+		return 0
+	case 1:
+		return uint32(r.Pick(1, 0x7fffffff, 0x80000000, 0xffffffff))
+	}
+	return uint32(honest)
+}
+
 func genAttrs(r *Rng) []attr {
 	var as []attr
 	n := r.Pick(0, 0, 0, 1, 1, 2, 3)
 	for i := 0; i < n; i++ {
 		switch r.Intn(6) {
 		case 0, 1:
-			as = append(as, compAttr(uint32(r.Pick(0, 1, 2, 3, 0x7fffffff)), uint32(r.Intn(1<<16))))
+			// the size field of the attribute is not used by the listing nor by Decompress: any value
+			as = append(as, compAttr(uint32(r.Pick(0, 1, 2, 3, 0x7fffffff)), genDsize(r, r.Intn(1<<16))))
 		case 2: // compression attribute too short to hold the algorithm + size
 			as = append(as, attr{uint32(cbfs.Compressed), r.Bytes(r.Pick(0, 4, 7))})
 		case 3:
@@ -483,7 +927,11 @@ func genAttrs(r *Rng) []attr {
 		case 4:
 			as = append(as, attr{uint32(r.Pick(int(cbfs.PSCB), int(cbfs.ALCB), int(cbfs.SHCB))), noSig(r.Bytes(r.Pick(4, 8, 16)))})
 		case 5:
-			as = append(as, attr{uint32(1 + r.Intn(0x7ffffffe)), noSig(r.Bytes(r.Intn(12)))})
+			pl := r.Intn(12)
+			if r.Chance(1, 6) { // a large attribute: the attribute block (and the metadata) beyond 256 bytes
+				pl = r.Pick(100, 200, 248, 256, 300, 1000)
+			}
+			as = append(as, attr{uint32(1 + r.Intn(0x7ffffffe)), noSig(r.Bytes(pl))})
 		}
 	}
 	return as
@@ -491,6 +939,9 @@ func genAttrs(r *Rng) []attr {
 
 func genData(r *Rng, typ uint32) []byte {
 	n := r.Pick(0, 1, 2, 5, 15, 16, 17, 31, 32, 33, 64, 100, 200)
+	if r.Chance(1, 40) { // sizes that need more than 8 bits
+		n = r.Pick(255, 256, 257, 1000)
+	}
 	d := noSig(r.Bytes(n))
 	switch typ {
 	case uint32(cbfs.TypeLegacyStage):
@@ -585,6 +1036,109 @@ func genArchive(r *Rng) []arec {
 	return a
 }
 
+func repad(b []arec) {
+	for j := range b {
+		body := int(b[j].so()) + len(b[j].data)
+		padTo := (16 - body%16) % 16
+		if j < len(b)-1 || len(b[j].pad) > padTo {
+			b[j].pad = bytes.Repeat([]byte{0xff}, padTo)
+		}
+	}
+}
+
+var (
+	lzmaC = &compression.LZMA{}
+	lz4C  = &compression.LZ4{}
+)
+
+// genOrig / encode: content and its LZMA (1) or LZ4 (2) encoding, checked to decode
+// back with the real codec (the round-trip hypothesis of C19_decompress_original)
+func genOrig(r *Rng) []byte {
+	if r.Chance(1, 8) {
+		return []byte{}
+	}
+	orig := bytes.Repeat([]byte("FIANO ROCKS!\n"), r.Range(0, 40))
+	return append(orig, r.Bytes(r.Intn(40))...)
+}
+
+func encode(alg uint32, orig []byte) ([]byte, bool) {
+	var c compression.Compressor = lzmaC
+	if alg == 2 {
+		c = lz4C
+	}
+	enc, err := c.Encode(orig)
+	if err != nil {
+		return nil, false
+	}
+	back, err := c.Decode(enc)
+	if err != nil || !bytes.Equal(back, orig) || bytes.Contains(enc, fmap.Signature) {
+		return nil, false
+	}
+	return enc, true
+}
+
+// consistent derives from a well-formed archive one on which the whole image can be
+// extracted: every record that is not empty space has a usable file name of its own,
+// and a record announces LZMA / LZ4 only when its data is the encoding of a known
+// original (returned by index).  Compression attributes that announce anything else
+// than none over random data are dropped; about every third record (any type but SELF,
+// legacy stages when the encoding is long enough to hold the stage header) becomes a
+// compressed one, with the compression attribute anywhere before the other compression
+// attributes and any value in its size field.
+func consistent(r *Rng, a []arec) ([]arec, map[int][]byte) {
+	b := make([]arec, len(a))
+	origs := map[int][]byte{}
+	seen := map[string]bool{}
+	for k := range a {
+		rec := a[k]
+		rec.attrs = append([]attr{}, a[k].attrs...)
+		if isEmptyType(rec.typ) {
+			b[k] = rec
+			continue
+		}
+		for try := 0; ; try++ {
+			m := mangled(rec.name)
+			if usableName(m) && !seen[m] {
+				seen[m] = true
+				break
+			}
+			rec.name = genName(r)
+			if try > 20 {
+				rec.name = append(rec.name, []byte(fmt.Sprintf("-%d", k))...)
+			}
+		}
+		var kept []attr
+		for _, at := range rec.attrs {
+			if at.tag == uint32(cbfs.Compressed) && len(at.payload) >= 8 && binary.BigEndian.Uint32(at.payload) != 0 {
+				continue
+			}
+			kept = append(kept, at)
+		}
+		rec.attrs = kept
+		if rec.typ != uint32(cbfs.TypeSELF) && r.Chance(1, 3) {
+			alg := uint32(r.Pick(1, 2))
+			orig := genOrig(r)
+			if enc, ok := encode(alg, orig); ok && (rec.typ != uint32(cbfs.TypeLegacyStage) || len(enc) >= 28) {
+				first := len(rec.attrs)
+				for j, at := range rec.attrs {
+					if at.tag == uint32(cbfs.Compressed) {
+						first = j
+						break
+					}
+				}
+				at := r.Intn(first + 1)
+				ca := compAttr(alg, genDsize(r, len(orig)))
+				rec.attrs = append(rec.attrs[:at], append([]attr{ca}, rec.attrs[at:]...)...)
+				rec.data = enc
+				origs[k] = orig
+			}
+		}
+		b[k] = rec
+	}
+	repad(b)
+	return b, origs
+}
+
 func areaNamed(n string, off, size int, flags uint16) fmap.Area {
 	var a fmap.Area
 	a.Offset, a.Size, a.Flags = uint32(off), uint32(size), flags
@@ -669,6 +1223,73 @@ func gen(r *Rng, tier string, emit Emit) {
 		emit("C", "newimage", H(img))
 		if len(a) > 0 {
 			emit("C", "filedata", H(img), I(int64(rr.Range(-1, len(a)))))
+		}
+		// the listing as text and as JSON
+		emit("P", "p_listing_text", append([]string{H(img), N(uint64(aoff))}, archArgs(a)...)...)
+		emit("P", "p_listing_json", append([]string{H(img), N(uint64(aoff))}, archArgs(a)...)...)
+
+		// a record whose size needs more than 12 / 16 bits (implementation-side oracles only:
+		// the list-based model is slow on images of this size; "spec" still ties the archive
+		// to the well-formedness hypothesis)
+		if it%32 == 5 {
+			lr := rr.Fork(0xB16)
+			la := append([]arec{}, a...)
+			var cand []int
+			for k := range la {
+				if !isEmptyType(la[k].typ) && la[k].typ != uint32(cbfs.TypeSELF) {
+					cand = append(cand, k)
+				}
+			}
+			if len(cand) > 0 {
+				k := cand[lr.Intn(len(cand))]
+				big := noSig(lr.Bytes(lr.Pick(4095, 4096, 4097, 65535, 65536, 65537, 70000)))
+				if la[k].typ == uint32(cbfs.TypeLegacyStage) {
+					binary.LittleEndian.PutUint32(big[20:], uint32(lr.Pick(0, len(big)-28, 0x7fffffff)))
+				}
+				la[k].data = big
+				repad(la)
+				img5, aoff5 := genImage(lr, embed(la), len(embed(la)), true)
+				head := []string{H(img5), N(uint64(aoff5))}
+				emit("C", "spec", archArgs(la)...)
+				emit("P", "p_archive", append(head, archArgs(la)...)...)
+				emit("P", "p_listing_text", append(head, archArgs(la)...)...)
+				emit("P", "p_listing_json", append(head, archArgs(la)...)...)
+				emit("P", "p_open", H(img5))
+			}
+		}
+
+		// an archive that can be extracted as a whole (several compressed records, honest
+		// and boundary size fields, distinct names): every oracle, cbfs.Open and the command
+		if it%2 == 1 {
+			cr := rr.Fork(0xC0DE)
+			b, origs := consistent(cr, a)
+			img4, aoff4 := genImage(cr, embed(b), len(embed(b)), true)
+			head := []string{H(img4), N(uint64(aoff4))}
+			emit("C", "spec", archArgs(b)...)
+			emit("P", "p_archive", append(head, archArgs(b)...)...)
+			emit("P", "p_listing_text", append(head, archArgs(b)...)...)
+			emit("P", "p_listing_json", append(head, archArgs(b)...)...)
+			if it%4 == 1 || tier == "thorough" {
+				emit("P", "p_open", H(img4))
+			}
+			var oa []string
+			for k := range b {
+				if o, ok := origs[k]; ok {
+					oa = append(oa, N(uint64(k)), H(o))
+					if len(oa) <= 4 { // Decompress on the first two; the command extracts all of them
+						emit("P", "p_decompress", H(img4), N(uint64(k)), H(o))
+					}
+				}
+			}
+			if it%8 == 1 || tier == "thorough" { // three process starts per case: fewer in the quick tier
+				stale := uint64(0)
+				if cr.Chance(1, 4) {
+					stale = 1
+				}
+				cargs := append([]string{H(img4), N(uint64(aoff4)), N(stale)}, archArgs(b)...)
+				cargs = append(cargs, N(uint64(len(oa)/2)))
+				emit("P", "p_cmd", append(cargs, oa...)...)
+			}
 		}
 		if it%4 == 0 {
 			// every situation of the destination: fresh path, empty file, same size with
@@ -829,5 +1450,12 @@ func main() {
 	Register("spec", opSpec)
 	Register("p_archive", pArchive)
 	Register("p_decompress", pDecompress)
+	Register("p_listing_text", pListingText)
+	Register("p_listing_json", pListingJSON)
+	Register("p_open", pOpen)
+	Register("p_cmd", pCmd)
+	if len(os.Args) > 1 && os.Args[1] != "worker" {
+		defer buildCmd()()
+	}
 	Main(gen)
 }
